@@ -768,6 +768,17 @@ class Interp(object):
             raise_py('TypeError', 'argument of type %s is not iterable' % self.kind(container))
         if isinstance(container, NDArr):
             return self.np.contains(container, item)
+        if isinstance(container, Opaque) and container.tag == 'havoc':
+            return self.mk(self.ctx.fresh_bool('in_prior_state_' + str(container.payload)), 'bool')
+        if isinstance(container, Opaque) and container.tag == 'set':
+            acc = False
+            for x in container.payload:
+                acc = self.or_(acc, self.equals(x, item))
+            return acc
+        if isinstance(container, Opaque):
+            h = self.config.get('opaque_contains')
+            if h is not None:
+                return h(self, container, item)
         raise Unsupported("'in' on %s" % self.kind(container))
 
     def pdict_has_sym(self, d, item):
@@ -2143,6 +2154,33 @@ class Interp(object):
             raise Unsupported('for-else with invariant')
         self.cut_loop(node, env, it, spec, q, k)
 
+    def havoc_loop_state(self, node, env, spec):
+        """State that earlier iterations may have changed and that the invariant does not describe: objects mutated
+        through methods / item stores become arbitrary (Opaque 'havoc': membership tests give fresh booleans, mutators are
+        no-ops); names that are rebound in the body become unusable until re-assigned (definite assignment is then checked
+        dynamically: reading one leaves the supported subset)."""
+        handled = set(spec.keeps(env)) | set(getattr(spec, 'handles', ()))
+        rebound, mutated = set(), set()
+        for st in node.body:
+            for sub in ast.walk(st):
+                if isinstance(sub, ast.Name) and isinstance(sub.ctx, ast.Store):
+                    rebound.add(sub.id)
+                if isinstance(sub, ast.Call) and isinstance(sub.func, ast.Attribute) and isinstance(sub.func.value, ast.Name) \
+                        and sub.func.attr in ('add', 'append', 'extend', 'update', 'pop', 'remove', 'insert', 'clear', 'discard', 'setdefault'):
+                    mutated.add(sub.func.value.id)
+                if isinstance(sub, (ast.Subscript, ast.Attribute)) and isinstance(sub.ctx, ast.Store):
+                    base = sub.value
+                    while isinstance(base, (ast.Subscript, ast.Attribute)):
+                        base = base.value
+                    if isinstance(base, ast.Name):
+                        mutated.add(base.id)
+        tnames = set(t.id for t in ast.walk(node.target) if isinstance(t, ast.Name))
+        for nm in mutated - rebound - handled - tnames:
+            if nm in env and not isinstance(env[nm], (NDArr,)) and not getattr(env[nm], 'havocked', False):
+                cur = env[nm]
+                if isinstance(cur, (Seq, SymSeq, PDict, Opaque)) or cur is None:
+                    env[nm] = Opaque('havoc', nm)
+
     # -- map-style loops: "for x in xs: ...; out.append(f(x))" --------------------------------------
     def map_style_loop(self, node, env, it, q, k):
         """A loop over a symbolic-length iterable whose only effect is one unconditional append per iteration to
@@ -2331,6 +2369,7 @@ class Interp(object):
             ctx.prove('%s.init.%s' % (tag, name), f, kind='loop-init')
         which = ctx.choice(2, tag)
         spec.havoc(self, env, st0)
+        self.havoc_loop_state(node, env, spec)
         # loop-local names assigned in the body are undefined garbage unless re-assigned
         if which == 0:
             kk = ctx.fresh_int('it_k')
